@@ -126,7 +126,8 @@ def run_std(rs, ctx, l, p, e):
         # behaviour and not a container effect
         e = "narrow"
     cfg = gen.gen_cfg(rs, l, p, labels=gen.pick(rs, ["int", "str", "float"]), n_arms=int(rs.integers(2, 5)),
-                      with_probs=bool(rs.integers(2)))
+                      with_probs=bool(rs.integers(2)),
+                      binarizer=gen.pick(rs, [None, "thr_three", "thr_inside"]) if (l == "ts" and p != "tree") else None)
     nf = int(gen.pick(rs, [1, 2, 3]))
     n = int(rs.integers(8, 20))
     b1 = gen.gen_batch(rs, cfg, cfg["arms"], n, nf, distinct_rows=5)
@@ -144,7 +145,12 @@ def run_std(rs, ctx, l, p, e):
             for row in (M_ or [])[1:]:
                 for j in range(len(row)):
                     row[j] = row[j] + float(gen.pick(rs, [0.0, 0.25, 0.5, 0.75]))
-    if e in ("narrow", "int") and rs.integers(2):
+    if e in ("narrow", "int", "list_mixed", "frame") and ctxual and rs.integers(3) == 0:
+        # whole numbers in the first batch, fractional values only in the later one (and in the queries)
+        b1["X"] = [[float(int(v)) for v in row] for row in b1["X"]]
+        b2["X"] = [[float(int(v)) + float(gen.pick(rs, [0.25, 0.5, 0.75])) for v in row] for row in b2["X"]]
+        ctx.count("integral_first_batch_fractional_later")
+    elif e in ("narrow", "int") and rs.integers(2):
         # larger integer coordinates (still far inside every integer dtype that is chosen for them)
         k_ = float(gen.pick(rs, [5, 30, 1000]))
         for M_ in ([b1["X"], b2["X"]] if ctxual else []) + [Q]:
